@@ -18,6 +18,7 @@ import subprocess
 import tempfile
 
 from .. import core
+from .. import hangaware
 
 BUFSZ = [2, 3, 4, 5, 8, 16, 64]
 ALPHA = list(range(0x61, 0x7b)) + [0x3c, 0x3e, 0x3a, 0x20, 0x25, 0x80, 0xff, 0x01]
@@ -136,7 +137,7 @@ def spec_lines(case, impl_line):
 def run_one(exe, run, case):
     cf = run.casefile("errmsg-one.txt", [" ".join(case)])
     model = core.run_model("errmsg", cf)
-    rc, out, err = core.run_impl(exe, [cf], timeout=60)
+    rc, out, err = core.run_impl(exe, [cf], timeout=25)
     impl = out.split("\n")[:-1]
     return model, impl, rc, err
 
@@ -191,7 +192,7 @@ def compare(run, exe, cases, model, impl, crashes):
         if not fails(case[1:]):
             run.count("unreproducible-disagreement")
             continue
-        small = [case[0]] + core.shrink_list(case[1:], fails)
+        small = [case[0]] + core.shrink_list(case[1:], fails, budget_s=25)
         m, im, r, e = run_one(exe, run, small)
         sv = spec_verdicts(run, small, im[0]) if im else []
         replay = {"engine": "errmsg", "ops": " ".join(small), "model": m, "implementation": im,
@@ -243,7 +244,7 @@ def check(run):
         part = [rp["ops"].split()]
         lines = [" ".join(c) for c in part]
         model = core.run_model("errmsg", run.casefile("errmsg-cases.txt", lines))
-        impl, crashes = core.run_impl_lines(exe, run.work, lines)
+        impl, crashes = hangaware.run_lines(exe, run.work, lines)
         print("model:          " + model[0])
         print("implementation: " + impl[0])
         compare(run, exe, part, model, impl, crashes)
@@ -268,7 +269,7 @@ def check(run):
         part = cases[s0:s0 + shard]
         lines = [" ".join(c) for c in part]
         model = core.run_model("errmsg", run.casefile("errmsg-cases.txt", lines))
-        impl, crashes = core.run_impl_lines(exe, run.work, lines)
+        impl, crashes = hangaware.run_lines(exe, run.work, lines)
         if crashes:
             run.count("impl-abnormal-exit", len(crashes))
         compare(run, exe, part, model, impl, crashes)
